@@ -18,7 +18,7 @@ func init() {
 			"C06.4 bad contacts refused: nodeIsBad=false ⇒ (NoSecurity ∨ IsSecure) ∧ ¬failedLastQuestionablePing (own and zero ID: C05.3); " +
 			"C06.5 blocked sources are dropped before processing (shared with C19.2); " +
 			"C06.6 a transaction stays registered only for the duration of its exchange (shared with C07.3); " +
-			"C06.7 'admitted whenever its bucket has room': every non-nil error return of Server.addNode is under nodeIsBad(n)=true, or under the eviction walk reporting the bucket still full, that walk being entered only under ¬(Len < k); every non-nil error return of updateNode is one of {id absent, not present ∧ add=false, own id, addNode's verdict}.",
+			"C06.7 'admitted whenever its bucket has room': every non-nil error return of Server.addNode is under nodeIsBad(n)=true, or under the eviction walk reporting the bucket still full, that walk being entered only under ¬(Len < k); every non-nil error return of updateNode is one of {id absent, not present ∧ add=false, own id, addNode's verdict}. C06.12 responses are matched on the full (id, address) pair kept apart in the key (shared with C07.1).",
 		NotDecided: "time-dependent goodness windows (15 min); that the bucket examined for room is the right one (C05.1/C05.3).",
 		Assume:     []string{"the bencode decoder fills krpc.Msg only from the datagram it is given"},
 		Rules: []*Rule{
@@ -32,6 +32,7 @@ func init() {
 			{ID: "C06.9", Doc: "a message flag (read-only) or sender id cannot leak from an earlier datagram: fresh decode target per datagram (shared with C07.7)", Floor: 1, Run: c07r7},
 			{ID: "C06.10", Doc: "the 'failed its liveness ping' mark is set only after the maintenance ping of that very contact failed, and cleared only together with recording a matched response", Floor: 2, Run: c06r10},
 			{ID: "C06.11", Doc: "entries leave the table only through the eviction rule: single writer of the table indexes (shared with C05.1)", Floor: 8, Run: c05r1},
+			{ID: "C06.12", Doc: "a response is matched on the full (transaction id, source address) pair, kept apart in the key (shared with C07.1)", Floor: 6, Run: c07r1},
 			{ID: "C06.5", Doc: "blocked sources dropped first", Floor: 3, Run: c19r2},
 		},
 	})
